@@ -462,6 +462,8 @@ func (r *Runner) assignVal(name string, prev expand.Variable, as *syntax.Assign,
 	if as.Append {
 		switch prev.Kind {
 		case expand.Unknown:
+		case expand.NameRef:
+			// A nameref which could not be resolved, e.g. without a target.
 		case expand.String:
 			list = []string{prev.Str}
 		case expand.Indexed:
